@@ -276,4 +276,31 @@ theorem C08_distributed (z l1 l2 : ℂ) :
     distImpedance [(none, l1), (none, l2)] = (0 : ℂ) := by
   refine ⟨?_, ?_, ?_⟩ <;> simp [distImpedance, distTerm] <;> ring
 
+/-- **every pulse is charged its distributed load exactly once**: a pulse one of whose halves lies on a loaded object is
+listed by exactly one per-object load (whose `impedance` then sums over both halves, `C08_distributed_sum`), a pulse
+without a loaded half by none — for every assignment of loads to objects, interior and junction pulses alike -/
+theorem C08_distributed_once (owner g0 g1 : Nat) (loaded : Nat → Bool) (ho : owner = g0 ∨ owner = g1) :
+    (distLoadsOf owner g0 g1 loaded).length = if loaded g0 || loaded g1 then 1 else 0 := by
+  unfold distLoadsOf
+  rcases ho with rfl | rfl
+  · by_cases h01 : owner = g1
+    · subst h01; cases loaded owner <;> simp
+    · cases h0 : loaded owner <;> cases h1 : loaded g1 <;> simp [h01]
+  · by_cases h01 : g0 = owner
+    · subst h01; cases loaded g0 <;> simp
+    · cases h0 : loaded g0 <;> cases h1 : loaded owner <;> simp [h01, Ne.symm h01]
+
+/-- the load that lists the pulse is one whose object carries a half of it -/
+theorem C08_distributed_whose (owner g0 g1 : Nat) (loaded : Nat → Bool) (ho : owner = g0 ∨ owner = g1) :
+    ∀ w ∈ distLoadsOf owner g0 g1 loaded, (w = g0 ∨ w = g1) ∧ loaded w = true := by
+  intro w hw
+  unfold distLoadsOf at hw
+  rcases ho with rfl | rfl
+  · by_cases h01 : owner = g1
+    · subst h01; cases h0 : loaded owner <;> simp_all
+    · cases h0 : loaded owner <;> cases h1 : loaded g1 <;> simp_all
+  · by_cases h01 : g0 = owner
+    · subst h01; cases h0 : loaded g0 <;> simp_all
+    · cases h0 : loaded g0 <;> cases h1 : loaded owner <;> simp_all
+
 end Pmn.Props.C08
